@@ -107,6 +107,19 @@ func sharedWritesIn(prog *core.Program, fn *ssa.Function) []sharedWrite {
 				}
 				return
 			}
+			// a mutating method of an object kept in a package-level interface variable (`var h = fnv.New32()`)
+			if com.IsInvoke() {
+				if g := root(com.Value); g != nil && !readOnlyMethod(com.Method.Name()) {
+					pk := ""
+					if nt, ok := com.Value.Type().(*types.Named); ok && nt.Obj().Pkg() != nil {
+						pk = nt.Obj().Pkg().Path()
+					}
+					if !syncPkgs[pk] {
+						out = append(out, sharedWrite{fn, ins, g, "method " + com.Method.Name() + " of the shared " + com.Value.Type().String()})
+					}
+				}
+				return
+			}
 			// a mutating method of a library object kept in a package-level variable
 			if f := com.StaticCallee(); f != nil && !prog.IsRepoFunc(f) && f.Signature.Recv() != nil && len(com.Args) > 0 {
 				if _, isPtr := f.Signature.Recv().Type().(*types.Pointer); isPtr && f.Pkg != nil && !syncPkgs[f.Pkg.Pkg.Path()] {
